@@ -230,6 +230,32 @@ func VH_C08_stream_vs_writer() {
 	verifrt.SearchOnly(60000) // a known finding lives here: search, do not claim exhaustiveness
 	verifrt.ExploreSchedules(0)
 	done := make(chan struct{})
+	if verifrt.Native() {
+		// real goroutines: several streams against several proposals make the overlap likely
+		go func() {
+			for i := 0; i < 8; i++ {
+				trx := transaction.Transaction{CreatedAt: l.recs[0].v.CreatedAt, IssuerAddress: "B", ReceiverAddress: "C", Subject: "s",
+					IssuerSignature: []byte{1}, Hash: vhTrxHash(1000 + i), Spice: spice.New(0, 1)}
+				l.ab.CreateLeaf(ctx, &trx)
+			}
+			close(done)
+		}()
+		fin := make(chan struct{})
+		go func() {
+			for i := 0; i < 8; i++ {
+				for range l.ab.StreamDAG(ctx) {
+				}
+			}
+			<-done
+			close(fin)
+		}()
+		select {
+		case <-fin:
+		case <-time.After(5 * time.Second):
+			verifrt.Assert(false, "VH_C08_stream_vs_writer/deadlock")
+		}
+		return
+	}
 	ch := l.ab.StreamDAG(ctx)
 	go func() {
 		trx := transaction.Transaction{CreatedAt: l.recs[0].v.CreatedAt, IssuerAddress: "B", ReceiverAddress: "C", Subject: "s",
@@ -237,21 +263,6 @@ func VH_C08_stream_vs_writer() {
 		l.ab.CreateLeaf(ctx, &trx)
 		close(done)
 	}()
-	if verifrt.Native() {
-		fin := make(chan struct{})
-		go func() {
-			for range ch {
-			}
-			<-done
-			close(fin)
-		}()
-		select {
-		case <-fin:
-		case <-time.After(3 * time.Second):
-			verifrt.Assert(false, "VH_C08_stream_vs_writer/deadlock")
-		}
-		return
-	}
 	for range ch {
 	}
 	<-done
